@@ -13,3 +13,6 @@ import (
 func VerifChatPrompt(ctx context.Context, m *Model, tokenize func(context.Context, string) ([]int, error), opts *api.Options, msgs []api.Message, tools []api.Tool) (string, []llm.ImageData, error) {
 	return chatPrompt(ctx, m, tokenize, opts, msgs, tools)
 }
+
+// VerifErrTooManyImages is the unexported sentinel error of chatPrompt.
+var VerifErrTooManyImages = errTooManyImages
